@@ -321,7 +321,7 @@ fn fragmented_movies() -> Vec<(String, LFragMovie)> {
     let b = pick(&|o| matches!(o.base, Base::Explicit { at_moof: true }) && !o.psd && o.cts.is_none() && o.before && o.tfdt_v == 0 && o.base_time == 5 && o.fdd);
     let c = pick(&|o| o.base == Base::Neither && !o.psd && !o.fdd && o.cts == Some(1) && !o.before && o.tfdt_v == 1 && o.base_time == (1u64 << 32) + 5);
     vec![
-        ("one track, two fragments".to_string(), LFragMovie { movie_ts: 1000, tracks: vec![LFragTrack { id: 1, codec: Codec::Avc, timescale: 12800, trex_default_duration: 9 }], fragments: vec![vec![c09::mk_run(1, &a, 2, 0)], vec![c09::mk_run(1, &c, 2, 1)]], mehd: Some(0), large_moof: false, offsets_only: false }),
+        ("one track, two fragments".to_string(), LFragMovie { movie_ts: 1000, tracks: vec![LFragTrack { id: 1, codec: Codec::Avc, timescale: 12800, trex_default_duration: 9 }], fragments: vec![vec![c09::mk_run(1, &a, 2, 0)], vec![c09::mk_run(1, &c, 2, 1)]], mehd: Some(0), large_moof: false, offsets_only: false, fillers: 0 }),
         (
             "two tracks, both in each fragment".to_string(),
             LFragMovie {
@@ -331,6 +331,7 @@ fn fragmented_movies() -> Vec<(String, LFragMovie)> {
                 mehd: None,
                 large_moof: false,
                 offsets_only: false,
+                fillers: 0,
             },
         ),
     ]
